@@ -131,6 +131,12 @@ def main(argv):
     if 'tool_error' in res:
         print('TOOL-ERROR: %s' % res['tool_error']); return 2
     scope, obligations = select(prop_id, cfg, res)
+    # units of this property that fell out of Verus's reach on this tree (unsupported construct): undecided, not an alarm
+    lost = [u for u in res['units'] if u['path'].split('@')[0] in res.get('auto_external', {}) and any(unit_matches(u, s) for s in cfg.get('units', []))]
+    if lost:
+        for u in lost:
+            print('TOOL-ERROR: %s can no longer be translated by Verus (%s): property %s is undecided on this tree' % (u['path'], res['auto_external'][u['path'].split('@')[0]], prop_id))
+        return 2
     if not obligations:
         print('TOOL-ERROR: property %s selects no obligation (vacuous check)' % prop_id); return 2
     fails = failing(prop_id, cfg, res, obligations)
